@@ -1350,15 +1350,19 @@ struct RefCase {
     extra_col: bool,
     /// key of spec entry k
     keys: Vec<Vec<u8>>,
+    /// how the reference column is declared: 0 = unsigned word (entries without a reference hold
+    /// a delayed constant), 1 = unsigned word next to plain equal constants, 2 = signed word
+    /// giving the target's position, 3 = signed word giving target position - own position
+    mode: u8,
 }
 
 impl RefCase {
     fn json(&self) -> J {
         if self.n <= 8 {
-            json!({"engine":"schemamc","sub":"c15","n":self.n,"f":self.f,"order":self.order,"sorted":self.sorted,"extra_col":self.extra_col,
+            json!({"engine":"schemamc","sub":"c15","n":self.n,"f":self.f,"order":self.order,"sorted":self.sorted,"extra_col":self.extra_col,"mode":self.mode,
                "keys": self.keys.iter().map(|k| jbkmc::hex(k)).collect::<Vec<_>>()})
         } else {
-            json!({"engine":"schemamc","sub":"c15","n":self.n,"structured":true,"sorted":self.sorted,"extra_col":self.extra_col,
+            json!({"engine":"schemamc","sub":"c15","n":self.n,"structured":true,"sorted":self.sorted,"extra_col":self.extra_col,"mode":self.mode,
                    "f_head": &self.f[..8], "order_head": &self.order[..8]})
         }
     }
@@ -1370,6 +1374,7 @@ impl RefCase {
             sorted: j["sorted"].as_bool().unwrap(),
             extra_col: j["extra_col"].as_bool().unwrap(),
             keys: j["keys"].as_array().unwrap().iter().map(|x| jbkmc::unhex(x.as_str().unwrap())).collect(),
+            mode: j["mode"].as_u64().unwrap_or(0) as u8,
         }
     }
 }
@@ -1380,7 +1385,7 @@ fn check_refs(case: &RefCase) -> (String, Option<(String, String)>) {
     if case.extra_col {
         common.push(PropSpec::U);
     }
-    common.push(PropSpec::U); // the reference (or a plain number when the entry references nothing)
+    common.push(if case.mode >= 2 { PropSpec::S } else { PropSpec::U }); // the reference (or a plain number when the entry references nothing)
     let schema = SchemaSpec {
         stores: vec![StoreKind::Plain],
         common,
@@ -1393,9 +1398,13 @@ fn check_refs(case: &RefCase) -> (String, Option<(String, String)>) {
             if case.extra_col {
                 vals.push(Val::U(1000 + 300 * k as u64));
             }
-            vals.push(match case.f[k] {
-                Some(t) => Val::Ref(t),
-                None => Val::UW(n as u64 + 7),
+            vals.push(match (case.f[k], case.mode) {
+                (Some(t), 0 | 1) => Val::Ref(t),
+                (Some(t), 2) => Val::SRef(t),
+                (Some(t), _) => Val::SRel(t),
+                (None, 0) => Val::UW(n as u64 + 7),
+                (None, 1) => Val::U(0),
+                (None, _) => Val::S(-7),
             });
             EntrySpec { variant: None, vals }
         })
@@ -1423,7 +1432,7 @@ fn check_refs(case: &RefCase) -> (String, Option<(String, String)>) {
     };
     let fp = |k: usize| pos[k];
     if let Err((k, w)) = read_and_compare(&spec, &built, &fp) {
-        let key = if k.starts_with("altered uint") { "C15 reference does not resolve to the final position".to_string() } else { format!("C15 readback: {k}") };
+        let key = if k.starts_with("altered uint") || k.starts_with("altered sint") { "C15 reference does not resolve to the final position".to_string() } else { format!("C15 readback: {k}") };
         return ("violation".into(), Some((key, w)));
     }
     for k in 0..n {
@@ -1458,7 +1467,7 @@ fn c15(args: &Args) -> ! {
     let mut rep = Report::new(
         "schemamc",
         "C15",
-        "every reference function f: entries -> entries+none ((n+1)^n graphs) x every insertion order (n!) x {sorted,unsorted} x {reference column alone, next to another column}, n in 1..4 (quick) / 1..5 (thorough), plus structured graphs (successor chain, everyone->last, reversal, self) at n in {32,300,1000,20000} crossing the 1-byte position boundary and rayon's sequential cut-offs; non-trivial = at least one reference and (unsorted or the sort moves an entry)",
+        "every reference function f: entries -> entries+none ((n+1)^n graphs) x every insertion order (n!) x {sorted,unsorted} x {reference column alone, next to another column} x {unsigned word, unsigned word beside plain equal constants, signed word = target position, signed word = target - own position}, n in 1..4 (quick) / 1..5 (thorough), plus structured graphs (successor chain, everyone->last, reversal, self) at n in {32,300,1000,20000} crossing the 1-byte position boundary and rayon's sequential cut-offs; non-trivial = at least one reference and (unsorted or the sort moves an entry)",
     );
     if let Some(p) = &args.replay {
         let j: J = serde_json::from_str(&std::fs::read_to_string(p).expect("replay file")).unwrap();
@@ -1504,7 +1513,9 @@ fn c15(args: &Args) -> ! {
                         for rev in [false, true] {
                             let mut order: Vec<usize> = (0..n).collect();
                             if rev { order.reverse(); }
-                            descs.push(RefCase { n, f: f.clone(), order, sorted, extra_col: n % 2 == 0, keys: keys.clone() });
+                            for mode in 0..4u8 {
+                                descs.push(RefCase { n, f: f.clone(), order: order.clone(), sorted, extra_col: n % 2 == 0, keys: keys.clone(), mode });
+                            }
                         }
                     }
                 }
@@ -1512,7 +1523,7 @@ fn c15(args: &Args) -> ! {
         }
         run_cases(&mut rep, &descs, |d| {
             let mut r = ref_result(d, "large");
-            r.id = format!("large:{}:{:?}:{}:{}:{:?}", d.n, &d.f[..d.f.len().min(4)], d.sorted, d.order[0], d.keys[0]);
+            r.id = format!("large:{}:{:?}:{}:{}:{:?}:{}", d.n, &d.f[..d.f.len().min(4)], d.sorted, d.order[0], d.keys[0], d.mode);
             r
         });
         rep.finish(args);
@@ -1526,7 +1537,9 @@ fn c15(args: &Args) -> ! {
             for order in permutations(n) {
                 for sorted in [true, false] {
                     for extra_col in [false, true] {
-                        descs.push(RefCase { n, f: f.clone(), order: order.clone(), sorted, extra_col, keys: keys.clone() });
+                        for mode in 0..4u8 {
+                            descs.push(RefCase { n, f: f.clone(), order: order.clone(), sorted, extra_col, keys: keys.clone(), mode });
+                        }
                     }
                 }
             }
@@ -1556,7 +1569,7 @@ fn c15(args: &Args) -> ! {
                 continue;
             }
             for order in permutations(n) {
-                rdescs.push(RefCase { n, f: f.clone(), order, sorted: true, extra_col: false, keys: keys.clone() });
+                rdescs.push(RefCase { n, f: f.clone(), order, sorted: true, extra_col: false, keys: keys.clone(), mode: 0 });
             }
         }
     }
